@@ -18,7 +18,7 @@ import time
 from .. import build, conv
 
 VERIF = build.VERIF
-RULE = ("(1) libFuzzer, coverage-guided, byte level: input = selector byte (object kind x encoding x checked x odd address) + payload copied "
+RULE = ("(1) libFuzzer, coverage-guided, byte level: input = selector byte (object kind x encoding x checked x buffer offset 0..15 behind a 16-byte aligned address) + payload copied "
         "into an exact-size heap block; the target follows the Go callers' protocol (length discovery -> allocate exactly the reported "
         "slots -> unmarshal; fixed-size objects only at their length) and, on acceptance, marshals into an exact-size block, compares the "
         "length functions, unmarshals again and requires identical bytes; ASan+UBSan abort on any out-of-bounds / misaligned / undefined "
@@ -94,6 +94,11 @@ def make_corpus(dst, vseed):
                 with open(os.path.join(dst, "seed-%02d-%d-%d%d-%d" % (kind, comp, checked, odd, count)), "wb") as f:
                     f.write(bytes([sel]) + payload)
                 count += 1
+            # extended selector: explicit buffer offset behind a 16-byte aligned address (4-but-not-8 aligned, 8-but-not-16, ...)
+            off = (2, 4, 8, 12, 6, 3)[count % 6]
+            with open(os.path.join(dst, "seed-%02d-%d-%d-off%d-%d" % (kind, comp, checked, off, count)), "wb") as f:
+                f.write(bytes([kind | (0x10 if comp else 0) | (0x20 if checked else 0) | 0x80]) + payload + bytes([off]))
+            count += 1
     try:
         for l, sigs in ((0, False), (1, True), (3, True), (5, False)):
             params, msk = W.setup(l, sigs, b"corpus%d" % l, vseed + l)
